@@ -401,6 +401,70 @@ def run(ctx):
         ctx.decide(sd, "C20.seed", btf.ident, loc_of(btf), "the torch flow seeds torch's generator from its seed argument, for every seed value", why_s)
     except (AnalysisError, KeyError):
         pass
+    # a random key / generator handed to sample() is the one in force when the run starts -- on the first call and on every later one
+    import re as _re
+    n_keyed = 0
+    for m_ in repo.modules.values():
+        if not m_.name.startswith("aspire.samplers"):
+            continue
+        for c_ in m_.classes.values():
+            sm_ = c_.methods.get("sample")
+            if sm_ is None or not sm_.params:
+                continue
+            for prm in sm_.params[1:]:
+                if not _re.search(r"(^|_)(key|seed)$", prm):
+                    continue
+                evk = _Ev(repo, max_depth=0)
+                evk.run(sm_, c_)
+                me_k, pk = T.atom(sm_.params[0]), T.atom(prm)
+                stored = [(a, v) for (o, a, v, node, fn, seq) in evk.stores if o == me_k and fn is sm_ and any(x == pk for x in T.subterms(v))]
+                if not stored:
+                    continue
+                n_keyed += 1
+                attr_k = stored[-1][0]
+                # the value when control passes to the run (the last call on self made by this method), else at exit
+                hand = [e for e in evk.events if e.func is sm_ and e.depth == 0 and e.snap and me_k in e.snap and attr_k in e.snap[me_k]]
+                final = hand[-1].snap[me_k][attr_k] if hand else evk.heap.get((me_k, attr_k))
+                given = T.resolve(final, lambda c, pk=pk: False if c == ("is", pk, T.NONE) else None) if final is not None else None
+                ctx.decide(given == pk, "C20.seed", sm_.ident, loc_of(sm_),
+                           f"when `{prm}` is given, self.{attr_k} is that key when the run starts",
+                           f"with `{prm}` given, self.{attr_k} at the start of the run is {T.show(given)[:120] if given else None}, not the key the caller passed: "
+                           "a later call on the same sampler silently continues from the key left over by the previous run", disc=f"given|{prm}")
+    ctx.count("samplers_taking_a_key", n_keyed)
+
+    # ... and nothing may undo that seeding: torch.random.fork_rng restores the generator state when its block is left, so a flow
+    # constructed (or torch seeded) inside such a block leaves the global generator as if the seed had never been applied
+    seeding = set()
+    for m_ in repo.modules.values():
+        for c_ in m_.classes.values():
+            init_ = c_.resolve("__init__")
+            if init_ is not None and any(isinstance(n, ast.Call) and (dotted(n.func) or "").endswith("manual_seed") for n in walk_no_nested(init_.node)):
+                seeding.add(c_.ident)
+    undone = []
+    n_forks = 0
+    for f in repo.all_functions():
+        for w in walk_no_nested(f.node):
+            if not (isinstance(w, ast.With) and any(isinstance(i.context_expr, ast.Call) and (dotted(i.context_expr.func) or "").endswith("fork_rng") for i in w.items)):
+                continue
+            n_forks += 1
+            for b in w.body:
+                for n in ast.walk(b):
+                    if not isinstance(n, ast.Call):
+                        continue
+                    d_ = dotted(n.func) or ""
+                    if d_.endswith("manual_seed") or d_.endswith("random.seed"):
+                        undone.append((f, n, f"{d_}(...)"))
+                    elif isinstance(n.func, ast.Name) and f.cls is not None and f.params and n.func.id == f.params[0] and f.has_decorator("classmethod") \
+                            and any(f.cls in repo.cls(sc).mro() or repo.cls(sc) in f.cls.mro() for sc in seeding):
+                        undone.append((f, n, f"the construction {ast.unparse(n)[:40]} (its __init__ seeds torch from the stored seed)"))
+                    elif isinstance(n.func, ast.Name) and any(sc.endswith(":" + n.func.id) for sc in seeding):
+                        undone.append((f, n, f"the construction of {n.func.id} (its __init__ seeds torch)"))
+    ctx.count("fork_rng_blocks", n_forks)
+    ctx.count("classes_seeding_torch_in_init", len(seeding))
+    ctx.decide(not undone, "C20.seed", "package", loc_of(undone[0][0], undone[0][1]) if undone else "src/aspire",
+               f"no seeding of the torch generator happens inside a fork_rng block ({n_forks} such blocks; {len(seeding)} classes seed torch in __init__)",
+               (f"{undone[0][0].ident} runs {undone[0][2]} inside `with torch.random.fork_rng(...)`: the generator state is restored when the block is left, so the seed "
+                "has no effect on the draws that follow -- two runs that load the same flow and sample draw different numbers") if undone else "", disc="fork")
 
 
 def _is_stub(f):
@@ -457,6 +521,9 @@ MUTANTS = [
     M("SMC constructor ignores rng", _B, "self.rng = rng or np.random.default_rng()\n        self._adapative_target_efficiency = False", "self.rng = np.random.default_rng()\n        self._adapative_target_efficiency = False", ("C20.fresh", "C20.used")),
     M("resampling without the sampler generator", _B, "samples = samples.resample(beta, rng=self.rng)", "samples = samples.resample(beta)", "C20.kernel"),
     M("minipcn kernel without generator", _MP, "step_fn=self.sampler_kwargs[\"step_fn\"],\n            rng=self.rng,", "step_fn=self.sampler_kwargs[\"step_fn\"],", "C20.kernel"),
+    M("loaded torch flow is constructed inside fork_rng (its seeding is undone)", "src/aspire/flows/torch/flows.py", "obj = self(**config)\n", "with torch.random.fork_rng(devices=[]):\n            obj = self(**config)\n", "C20.seed"),
+    M("blackjax keeps a key it already holds (a key passed to a later call is ignored)", _BJ, "if rng_key is None:\n            import jax\n\n            self.key = jax.random.key(42)\n        else:\n            self.key = rng_key",
+      "if self.key is None:\n            if rng_key is None:\n                import jax\n\n                rng_key = jax.random.key(42)\n            self.key = rng_key", "C20.seed"),
     M("blackjax key not advanced", _BJ, "self.key, subkey = jax.random.split(self.key)", "_, subkey = jax.random.split(self.key)", "C20.key"),
     M("flowjax draws with the held key", _JF, "self.key, subkey = jrandom.split(self.key)\n        x_prime = self._flow.sample(subkey, (n_samples,))\n        x = self.inverse_rescale(x_prime)[0]", "x_prime = self._flow.sample(self.key, (n_samples,))\n        x = self.inverse_rescale(x_prime)[0]", "C20.key"),
     M("flowjax sub-key used twice", _JF, "x_prime = jnp.asarray(self.fit_data_transform(x), dtype=self.dtype)\n        self.key, subkey = jrandom.split(self.key)", "self.key, subkey = jrandom.split(self.key)\n        x = x + 0 * jrandom.normal(subkey, x.shape)\n        x_prime = jnp.asarray(self.fit_data_transform(x), dtype=self.dtype)", "C20.key"),
